@@ -105,22 +105,39 @@ void AbstractParameterAliasable::aliasParameters(const std::string& p1, const st
   Parameter* param1 = &getParameter_(p1);
   Parameter* param2 = &getParameter_(p2);
 
+  // The constraint p1 and p2 will share (null if nothing has to change):
+  std::shared_ptr<ConstraintInterface> nc;
+  bool both = false;
   if (!param1->hasConstraint())
   {
     if (param2->hasConstraint())
-    {
-      ApplicationTools::displayWarning("Aliasing parameter " + p2 + " to " + p1 + ". " + p1 + " gets the constraints of " + p2 + ": " + param2->getConstraint()->getDescription());
-      param1->setConstraint(param2->getConstraint());
-    }
+      nc = param2->getConstraint();
   }
   else
   // We use a small trick here, we test the constraints on the basis of their string description (C++ does not provide a default operator==() :( ).
   if (param2->hasConstraint() && (param1->getConstraint()->getDescription() != param2->getConstraint()->getDescription()))
   {
-    std::shared_ptr<ConstraintInterface> nc(*param2->getConstraint() & *param1->getConstraint());
-    ApplicationTools::displayWarning("Aliasing parameter " + p2 + " to " + p1 + " with different constraints. They get the intersection of both constraints : " + nc->getDescription());
+    nc.reset(*param2->getConstraint() & *param1->getConstraint());
+    if (!nc)
+      throw Exception("AbstractParameterAliasable::aliasParameters. The constraints of " + p1 + " and " + p2 + " can't be intersected.");
+    both = true;
+  }
 
-    param2->setConstraint(nc);
+  if (nc)
+  {
+    // Nothing is changed unless the current values fit the constraint they will get:
+    if (both && !nc->isCorrect(param2->getValue()))
+      throw ConstraintException("AbstractParameterAliasable::aliasParameters", param2, param2->getValue());
+    if (!nc->isCorrect(param1->getValue()))
+      throw ConstraintException("AbstractParameterAliasable::aliasParameters", param1, param1->getValue());
+
+    if (both)
+    {
+      ApplicationTools::displayWarning("Aliasing parameter " + p2 + " to " + p1 + " with different constraints. They get the intersection of both constraints : " + nc->getDescription());
+      param2->setConstraint(nc);
+    }
+    else
+      ApplicationTools::displayWarning("Aliasing parameter " + p2 + " to " + p1 + ". " + p1 + " gets the constraints of " + p2 + ": " + nc->getDescription());
     param1->setConstraint(nc);
   }
 
